@@ -64,7 +64,8 @@ func c05Step(x *engine.Exec) []engine.Failure {
 			case (strings.Contains(e, "insufficient delegation shares") || strings.Contains(e, "insufficient tokens")) && D != nil && D.Sign() > 0 && D.Cmp(ratI(1)) < 0:
 				return "full-exit-below-one-delegator-share"
 			case (strings.Contains(e, "insufficient delegation shares") || strings.Contains(e, "insufficient tokens")) && D != nil && vt != nil && vt.Sign() > 0 &&
-				world.RatInt(p.Reported).Cmp(p.Value) > 0 && ratMul(ratQuo(D, vt), ratSub(world.RatInt(p.Reported), p.Value)).Cmp(big.NewRat(1, 100)) >= 0:
+				world.RatInt(p.Reported).Cmp(p.Value) > 0 && ratMul(ratQuo(D, vt), ratSub(world.RatInt(p.Reported), p.Value)).Cmp(big.NewRat(1, 100)) >= 0 &&
+				needsMoreWholeShares(p, D, vt):
 				// the query reports floor(value+0.01), i.e. rounds values in [n-0.01,n) UP to n; ValidateDelegatedAmount's
 				// 0.01 window is measured in shares, so at more than one share per token the rounded-up balance can need
 				// more shares than the position has
@@ -140,4 +141,15 @@ func init() {
 			"slash fractions 1/3, 0.99, 1; take rate 0.3; reward inflow in the bond denom",
 		},
 	})
+}
+
+// needsMoreWholeShares is the exact condition under which the unchanged ValidateDelegatedAmount refuses the reported
+// balance: the shares needed for it, truncated to a whole number, exceed the shares the position holds
+// (delegation.Shares < TruncateDec(needed)). A refusal with a smaller excess is NOT the known finding.
+func needsMoreWholeShares(p world.Pos, D, vt *big.Rat) bool {
+	needed := ratQuo(ratMul(world.RatInt(p.Reported), D), vt)
+	// the module computes the quotient D/vt with 18 digits: allow that much slack around an integer boundary
+	slack := ratMul(world.RatInt(p.Reported), big.NewRat(1, 1000000000000000000))
+	fl := new(big.Rat).SetInt(world.Floor(ratAdd(needed, slack)))
+	return fl.Cmp(p.Shares) > 0
 }
